@@ -44,6 +44,9 @@ type readOutcome struct {
 	After       []string // what further Reader calls did: "error: ..." or "DELIVERED type=.. n=.."
 	AfterMsgs   []gotMsg
 	TimedOut    bool
+	// CleanAfterError: the reader of the message that failed was read again (as a bufio.Reader or a retry loop does)
+	// and then reported the clean end of the message / returned without error; "" if it kept failing.
+	CleanAfterError string
 }
 
 // readLoop reads messages until the first error, then tries extra more times.
@@ -81,6 +84,15 @@ func readLoopBetween(ctx context.Context, c *websocket.Conn, m readMode, extra i
 			}
 			if err != nil {
 				o.PartialType = byte(typ)
+				if o.CleanAfterError == "" && ctx.Err() == nil {
+					for k := 0; k < 3; k++ {
+						n2, e2 := rd.Read(buf)
+						if e2 == io.EOF || e2 == nil {
+							o.CleanAfterError = fmt.Sprintf("call %d after the failed one returned n=%d err=%v", k+1, n2, e2)
+							break
+						}
+					}
+				}
 				return gotMsg{}, data, true, err, "Read"
 			}
 			if between != nil && n > 0 {
@@ -144,6 +156,9 @@ func compareWithReference(r *fw.R, id string, ctxKey string, o *readOutcome, ref
 		default:
 			termKey = "eof-at-frame-boundary"
 		}
+	}
+	if o.CleanAfterError != "" {
+		r.Violate(id+"/clean-end-after-failed-read/"+termKey, fmt.Sprintf("%s: reading the message failed with %q, yet the same reader then reported its clean end: %s", ctxKey, o.Err, o.CleanAfterError), witness())
 	}
 	if o.TimedOut {
 		r.Violate(id+"/read-never-returned/"+termKey, fmt.Sprintf("%s: the read loop was still blocked 30 s after the whole stream and the transport EOF had been delivered", ctxKey), witness())
